@@ -264,6 +264,46 @@ def guard_eval(repo: Repo) -> RuleRun:
         face = sym_face(repo)
         res = _try(Evaluator(repo=repo, module=fae.module), fae, [face, v, Sym("edge")])
         expect(fae, res, bad, f"corner={v}", ("FaceCreationError",))
+    # Face(points, edges): a list of edges must have exactly four entries - also the empty list
+    finit = repo.func("construct.flat.face.Face.__init__")
+
+    def face_hook(ev, call, name):
+        nm = call.func.attr if isinstance(call.func, ast.Attribute) else name
+        if nm == "asarray" or nm == "array":
+            return ev.eval(call.args[0])
+        if nm == "shape":
+            return (4, 3)
+        if nm == "Point":
+            return Sym("point")
+        if nm == "Line":
+            return Obj("line")
+        if nm == "add_edge":
+            return None
+        return NO_MATCH
+
+    for n_edges, bad in ((None, False), (0, True), (1, True), (3, True), (4, False), (5, True)):
+        face = Obj("face", cls=repo.cls("construct.flat.face.Face"))
+        edges = None if n_edges is None else [None] * n_edges
+        res = _try(Evaluator(repo=repo, module=finit.module, call_hook=face_hook), finit, [face, [Sym(f"p{i}") for i in range(4)], edges])
+        expect(finit, res, bad, f"edges={'None' if edges is None else 'list of ' + str(n_edges)}", ("FaceCreationError",))
+    # AwareFaceStore.is_disconnected: true as soon as ONE face shares no point with the others
+    isd = repo.func("construct.shapes.shell.AwareFaceStore.is_disconnected")
+    for flags in ((False,), (True,), (False, False), (True, False), (False, True), (True, True), (False, True, False)):
+        store = Obj("store", cls=repo.cls("construct.shapes.shell.AwareFaceStore"))
+        faces = [Obj(f"face{i}", solitary=f) for i, f in enumerate(flags)]
+        store.set("faces", faces)
+
+        def aware_hook(ev, call, name):
+            if isinstance(call.func, ast.Attribute) and call.func.attr == "get_aware_face":
+                f = ev.eval(call.args[0])
+                return Obj("aware", is_solitary=f.get("solitary"))
+            return NO_MATCH
+
+        try:
+            got = Evaluator(repo=repo, module=isd.module, call_hook=aware_hook).call_funcinfo(isd, [store])
+        except (NotEvaluable, Raised) as err:
+            raise AnalysisError(f"AwareFaceStore.is_disconnected not evaluable: {err}") from err
+        r.check(got is any(flags), isd, f"solitary flags {flags} -> {got}", f"AwareFaceStore.is_disconnected with per-face solitary flags {flags} gives {got}; expected {any(flags)} - one loft that shares no point with the others is enough for the chop of one loft not to reach it, so the warning must fire", isd.node, key=f"disconnected:{flags}")
     ase = repo.func("construct.operations.operation.Operation.add_side_edge")
     for v, bad in ((-1, True), (0, False), (3, False), (4, True)):
         op = real_operation(repo)
